@@ -256,6 +256,8 @@ def run(cx, out):
     # (C07 R07.1 all entry points agree, R07.3 sinks append exactly what they are given); "input that does not begin with a
     # valid count is rejected" and the prefix widths are the compact reader / writer tables (C04 R04.1, R04.2)
     from . import shared
-    shared.premises(cx, out, {'c07': {'R07.1', 'R07.3'}, 'c04': {'R04.1', 'R04.2'}})
+    # "any item type (including alias forms)": the appended items are written by the encoders of types declared
+    # EncodeLike<T>; that each such declaration joins two types with the same wire shape is C16 R16.1
+    shared.premises(cx, out, {'c07': {'R07.1', 'R07.3'}, 'c04': {'R04.1', 'R04.2'}, 'c16': {'R16.1'}})
     from . import positive
     positive.check(cx, out, 'C15')
